@@ -77,7 +77,46 @@ func VerifC01ParseRelSymBase() {
 	compareParse(refs[ri], ctxAbs[ci].pre+w+ctxAbs[ci].suf, true)
 }
 
+// deep Σ-restricted windows per component (DESIGN §6 C01)
+var pathCtxs = []ctx{{"http://h/a/b/", "/c"}, {"a://h/a/b/", ""}, {"file:///C:/a/", "/c"}, {"http://h/", ""}}
+
+// VerifC01ParseAbsDots: dot-segment spellings: window over % 2 e E . in path contexts.
+func VerifC01ParseAbsDots() {
+	c := pathCtxs[vnd.Pick(len(pathCtxs))]
+	w := vnd.StrOver(vnd.Len(vnd.Param("C01.KDots", 6, 7)), "%2eE.")
+	compareParse(c.pre+w+c.suf, "", false)
+}
+
+// VerifC01ParseAbsPath: path alphabet a . / \ % 2 e | : ? # in path contexts (special, non-special, file).
+func VerifC01ParseAbsPath() {
+	c := pathCtxs[vnd.Pick(len(pathCtxs))]
+	w := vnd.StrOver(vnd.Len(vnd.Param("C01.KPath", 4, 5)), "a./\\%2e|:?#")
+	compareParse(c.pre+w+c.suf, "", false)
+}
+
+var authCtxs = []ctx{{"http://", "/p"}, {"a://", "/p"}, {"http://", ""}, {"file://", "/p"}, {"ws:", ""}}
+
+// VerifC01ParseAbsAuth: authority alphabet a : @ / % 4 0 [ ] \\ in authority contexts.
+func VerifC01ParseAbsAuth() {
+	c := authCtxs[vnd.Pick(len(authCtxs))]
+	w := vnd.StrOver(vnd.Len(vnd.Param("C01.KAuth", 4, 5)), "a:@/%40[]\\")
+	compareParse(c.pre+w+c.suf, "", false)
+}
+
+var fileRefBases = []string{"file:///C:/d/e", "file://h/d", "file:///", "file:///d/C:/x"}
+
+// VerifC01ParseFileRel: file/drive-letter quirks: references over / \\ . C | : a against file bases.
+func VerifC01ParseFileRel() {
+	b := fileRefBases[vnd.Pick(len(fileRefBases))]
+	w := vnd.StrOver(vnd.Len(vnd.Param("C01.KFile", 4, 6)), "/\\.C|:a?")
+	compareParse(w, b, true)
+}
+
 func init() {
+	verifHarnesses["VerifC01ParseAbsDots"] = VerifC01ParseAbsDots
+	verifHarnesses["VerifC01ParseAbsPath"] = VerifC01ParseAbsPath
+	verifHarnesses["VerifC01ParseAbsAuth"] = VerifC01ParseAbsAuth
+	verifHarnesses["VerifC01ParseFileRel"] = VerifC01ParseFileRel
 	verifHarnesses["VerifC01ParseAbs"] = VerifC01ParseAbs
 	verifHarnesses["VerifC01ParseRel"] = VerifC01ParseRel
 	verifHarnesses["VerifC01ParseRelSymBase"] = VerifC01ParseRelSymBase
